@@ -675,8 +675,9 @@ def specialize (c : Ctx) (rec : Rec) (k : SpecKind) (sv : Val) (id : Nat) (tps :
     let el ← c.size inner
     let cap ← if el = 0 then some (2 ^ 64 - 1) else (extractCapacity c.ver sv).map fun x => (guardCap x).toNat
     let head0 ← assumeScalarNumber sv "head"
-    if head0 < 0 then none else
-    let slots := ringIdx cap head0.toNat len
+    -- `… as usize`: a head ≥ 2^63 (zero-sized elements: the ring index wraps freely) comes back from i64 unchanged
+    let head := (head0 % (2 ^ 64 : Nat)).toNat
+    let slots := ringIdx cap head len
     let p ← assumePointer sv "pointer"
     let buf ← c.rd p (cap * el)
     let items ← parseSlots rec inner el p buf slots
